@@ -42,19 +42,41 @@ PARAMS = {'SinOsc': ['freq', 'phase'], 'Saw': ['freq'], 'LFNoise0': ['freq'], 'L
 RATE = {'ar': 'audio', 'kr': 'control', 'ir': 'scalar'}
 METHODS = {'lag': ('Lag', 1, 'MLag'), 'lag2': ('Lag2', 1, 'MLag'), 'lag3': ('Lag3', 1, 'MLag'),
            'lagud': ('LagUD', 2, 'MDirect'), 'slew': ('Slew', 2, 'MDirect'), 'clip': ('Clip', 2, 'MClip'),
-           'fold': ('Fold', 2, 'MClip'), 'wrap': ('Wrap', 2, 'MClip'), 'moddif': ('ModDif', 2, 'MClip')}
-NUMERIC_KERNEL = ('clip', 'fold', 'wrap', 'moddif')     # numbers answer these with builtins kernels (C15)
+           'fold': ('Fold', 2, 'MClip'), 'wrap': ('Wrap', 2, 'MClip'), 'moddif': ('ModDif', 2, 'MClip'),
+           'range': ('MulAdd', 2, 'MRange')}
+NUMERIC_KERNEL = ('clip', 'fold', 'wrap', 'moddif', 'range')     # numbers answer these with builtins kernels (C15) / not at all
 OPNUM = {'+': 'Z.add', '*': 'Z.mul', '-': 'Z.sub'}
 
 # ---------------------------------------------------------------------------
 # class ids and string ids (harness-assigned, shared by model call and expectation)
+# class id = 4 * base + rate code; base identifies "Name[/operator]/o<outputs>/s<special index>"
 _CID, _SID = {}, {}
+RCODE = {'scalar': 0, None: 0, 'control': 1, 'audio': 2, 'demand': 3}
+NOUTS = {'Pan2': 2, 'Out': 0, 'ReplaceOut': 0}
+SPECIAL = {'BinaryOpUGen/+': 0, 'BinaryOpUGen/-': 1, 'BinaryOpUGen/*': 2, 'UnaryOpUGen/neg': 0}
 
 
-def cid(key):
+def basekey(name):
+    """'SinOsc' / 'BinaryOpUGen/+' -> the key the implementation side reports for such a unit"""
+    return '%s/o%d/s%d' % (name, NOUTS.get(name.split('/')[0], 1), SPECIAL.get(name, 0))
+
+
+def base_n(key):
     if key not in _CID:
         _CID[key] = len(_CID) + 1
-    return cz(_CID[key])
+    return _CID[key]
+
+
+def base(name):
+    return cz(base_n(basekey(name)))
+
+
+def cid(name, rate):
+    return cz(4 * base_n(basekey(name)) + RCODE[rate])
+
+
+def cid_impl(key):
+    return cz(4 * base_n(key[0]) + RCODE[key[1]])
 
 
 def sid(s):
@@ -90,17 +112,20 @@ def cunits(units):
         xs = [ctree(x) for x in ins]
         if any(x is None for x in xs):
             return None
-        out.append('mkUnit %s [%s]' % (cid(key), '; '.join(xs)))
+        out.append('mkUnit %s [%s]' % (cid_impl(key), '; '.join(xs)))
     return '[' + '; '.join(out) + ']'
+
+
+PRE = {'sin': ('SinOsc', 'audio', 1), 'sink': ('SinOsc', 'control', 1), 'ir': ('Clip', 'scalar', 1),
+       'pan': ('Pan2', 'audio', 2), 'pank': ('Pan2', 'control', 2)}
 
 
 def prelude_units(pre):
     us = []
     for j, kind in enumerate(pre):
-        if kind == 'sin':
-            us.append(['SinOsc/audio', [['K', 100 + j], ['K', 0]]])
-        else:
-            us.append(['Pan2/audio', [['K', 100 + j], ['K', 0], ['K', 1]]])
+        name, rate, nouts = PRE[kind]
+        ins = [['K', 100 + j], ['K', 0]] + ([['K', 1]] if kind != 'sin' and kind != 'sink' else [])
+        us.append([[basekey(name), rate], ins])
     return us
 
 
@@ -113,11 +138,12 @@ class Gen:
 
     def prelude(self, need_unit=False):
         n = self.rng.choice([0, 1, 2, 2, 3]) if not need_unit else self.rng.choice([1, 2, 2, 3])
-        return [self.rng.choice(['sin', 'sin', 'pan']) for _ in range(n)]
+        # units of ALL calculation rates, so that one list argument mixes ar / kr / ir units and numbers
+        return [self.rng.choice(['sin', 'sin', 'sink', 'sink', 'ir', 'pan', 'pank']) for _ in range(n)]
 
     def ref(self, pre):
         j = self.rng.randrange(len(pre))
-        return ['U', j, 0 if pre[j] == 'sin' else self.rng.randrange(2)]
+        return ['U', j, self.rng.randrange(PRE[pre[j]][2])]
 
     def scalar(self, pre, consts, strs=False, p_unit=0.35):
         r = self.rng.random()
@@ -218,6 +244,13 @@ class Gen:
         recv = self.receiver(pre, self.rng.choice([1, 1, 2, 3]), numbers=(meth not in NUMERIC_KERNEL))
         consts = self.OPCONST + ([0] if meth.startswith('lag') and len(meth) <= 4 else [])
         args = [self.tree(pre, self.rng.choice([0, 1, 1, 2]), consts, empty=0.04, tuples=0.15, p_list=0.7) for _ in range(nargs)]
+        if meth == 'range':
+            # (hi - lo) * 0.5 and its sum with lo must be integers outside {0, 1, -1}
+            def nums(pool):
+                if self.rng.random() < 0.5:
+                    return ['K', self.rng.choice(pool)]
+                return ['L', [[self.rng.choice('KF'), self.rng.choice(pool)] for _ in range(self.rng.choice([1, 2, 3]))]]
+            args = [nums([2, 4]), nums([8, 10, 12])]
         return {'kind': 'method', 'pre': pre, 'meth': meth, 'self': recv, 'args': args}
 
     def madd(self, kind='madd'):
@@ -270,47 +303,46 @@ class Gen:
 def model_call(case):
     k = case['kind']
     T = ctree
+    MA = '%s %s %s' % (base('MulAdd'), base('BinaryOpUGen/*'), base('BinaryOpUGen/+'))
     if k == 'ctor':
         spec = CTORS[case['cls']]
         args = list(case['args'])
         for j in range(len(args), len(spec['defaults'])):
             nm = PARAMS[case['cls']][j]
             args.append(case['kwargs'][nm] if nm in case['kwargs'] else ['K', spec['defaults'][j]])
-        key = '%s/%s' % (case['cls'], RATE[case['rate']])
-        return 'multi_new (new1_plain %s %d) [%s]' % (cid(key), spec['nouts'], '; '.join(T(a) for a in args))
+        return 'multi_new (new1_plain %s %d) [%s]' % (cid(case['cls'], RATE[case['rate']]), spec['nouts'], '; '.join(T(a) for a in args))
     if k in ('clbinop', 'clrbinop'):
-        key = 'BinaryOpUGen/audio/' + case['op']
         fn = 'cl_binop' if k == 'clbinop' else 'cl_rbinop'
-        return '%s %s %s %s %s' % (fn, cid(key), OPNUM[case['op']], T(case['a']), T(case['b']))
+        return '%s %s %s %s %s' % (fn, base('BinaryOpUGen/' + case['op']), OPNUM[case['op']], T(case['a']), T(case['b']))
     if k == 'clunop':
-        return 'cl_unop %s Z.opp %s' % (cid('UnaryOpUGen/audio/neg'), T(case['a']))
+        return 'cl_unop %s Z.opp %s' % (base('UnaryOpUGen/neg'), T(case['a']))
     if k == 'ugenbinop':
-        return 'ugen_binop %s %s %s' % (cid('BinaryOpUGen/audio/' + case['op']), T(case['a']), T(case['b']))
+        return 'ugen_binop %s %s %s' % (base('BinaryOpUGen/' + case['op']), T(case['a']), T(case['b']))
     if k == 'ugenrbinop':
-        return 'ugen_rbinop %s %s %s' % (cid('BinaryOpUGen/audio/' + case['op']), T(case['a']), T(case['b']))
+        return 'ugen_rbinop %s %s %s' % (base('BinaryOpUGen/' + case['op']), T(case['a']), T(case['b']))
     if k == 'method':
         cls, _, ctor = METHODS[case['meth']]
-        return 'mc_perform (%s %s) [%s] [%s]' % (ctor, cid(cls + '/audio'), '; '.join(T(x) for x in case['self'][1]),
-                                                 '; '.join(T(a) for a in case['args']))
+        m = '(MRange %s)' % MA if ctor == 'MRange' else '(%s %s)' % (ctor, base(cls))
+        return 'mc_perform %s [%s] [%s]' % (m, '; '.join(T(x) for x in case['self'][1]), '; '.join(T(a) for a in case['args']))
     if k == 'dup':
         return 'cl_dup [%s] %d' % ('; '.join(T(x) for x in case['self'][1]), case['n'])
     if k == 'sum':
-        return 'cl_sum %s [%s]' % (cid('BinaryOpUGen/audio/+'), '; '.join(T(x) for x in case['self'][1]))
+        return 'cl_sum %s [%s]' % (base('BinaryOpUGen/+'), '; '.join(T(x) for x in case['self'][1]))
     if k in ('poll', 'dpoll'):
         items = '; '.join(T(x) for x in case['self'][1])
         defl = '; '.join(T(['S', 'ChannelList UGen [%d]' % i]) for i in range(len(case['self'][1])))
         if k == 'poll':
-            return 'cl_poll %s %s [%s] %s %s %s [%s]' % (cid('Poll/audio'), cid('Impulse/audio'), items, T(case['trig']),
+            return 'cl_poll %s %s [%s] %s %s %s [%s]' % (base('Poll'), base('Impulse'), items, T(case['trig']),
                                                          T(case['label']), T(case['tid']), defl)
-        return 'cl_dpoll %s [%s] %s %s %s [%s]' % (cid('Dpoll/demand'), items, T(case['label']), T(case['run']), T(case['tid']), defl)
+        return 'cl_dpoll %s [%s] %s %s %s [%s]' % (cid('Dpoll', 'demand'), items, T(case['label']), T(case['run']), T(case['tid']), defl)
     if k == 'madd':
-        return 'cl_madd %s [%s] %s %s' % (cid('MulAdd/audio'), '; '.join(T(x) for x in case['self'][1]), T(case['mul']), T(case['add']))
+        return 'cl_madd %s [%s] %s %s' % (MA, '; '.join(T(x) for x in case['self'][1]), T(case['mul']), T(case['add']))
     if k == 'muladd_new':
-        return 'muladd_new %s %s %s %s' % (cid('MulAdd/audio'), T(case['self']), T(case['mul']), T(case['add']))
+        return 'muladd_new %s %s %s %s' % (MA, T(case['self']), T(case['mul']), T(case['add']))
     if k == 'out_ar':
-        return 'out_ar %s %s %s %s' % (cid('DC/audio'), cid(case['cls'] + '/audio'), T(case['bus']), T(case['output']))
+        return 'out_ar %s %s %s %s' % (cid('DC', 'audio'), cid(case['cls'], 'audio'), T(case['bus']), T(case['output']))
     if k == 'out_kr':
-        return 'out_kr %s %s %s' % (cid(case['cls'] + '/control'), T(case['bus']), T(case['output']))
+        return 'out_kr %s %s %s' % (cid(case['cls'], 'control'), T(case['bus']), T(case['output']))
     raise ValueError(k)
 
 
@@ -324,7 +356,7 @@ def show(t):
     if k == 'F':
         return '%s.0' % t[1]
     if k == 'U':
-        pan = t[1] < len(_SHOW_PRE) and _SHOW_PRE[t[1]] == 'pan'
+        pan = t[1] < len(_SHOW_PRE) and _SHOW_PRE[t[1]] in ('pan', 'pank')
         return 'u%d' % t[1] + ('[%d]' % t[2] if pan else '')
     if k == 'S':
         return repr(t[1])
@@ -342,8 +374,8 @@ def show(t):
 def show_call(case):
     k = case['kind']
     _SHOW_PRE[:] = case['pre']
-    pre = '; '.join('u%d = %s' % (j, 'SinOsc.ar(%d, 0)' % (100 + j) if p == 'sin' else 'Pan2.ar(%d, 0, 1)' % (100 + j))
-                    for j, p in enumerate(case['pre']))
+    fmt = {'sin': 'SinOsc.ar(%d, 0)', 'sink': 'SinOsc.kr(%d, 0)', 'ir': 'Clip.ir(%d, 0, 1)', 'pan': 'Pan2.ar(%d, 0, 1)', 'pank': 'Pan2.kr(%d, 0, 1)'}
+    pre = '; '.join('u%d = %s' % (j, fmt[p] % (100 + j)) for j, p in enumerate(case['pre']))
     if k == 'ctor':
         a = [show(x) for x in case['args']] + ['%s=%s' % (n, show(v)) for n, v in case.get('kwargs', {}).items()]
         c = '%s.%s(%s)' % (case['cls'], case['rate'], ', '.join(a))
@@ -396,6 +428,13 @@ FIXED = [
     {'kind': 'clbinop', 'pre': ['sin', 'sin'], 'op': '+', 'a': ['C', [['U', 0, 0], ['U', 1, 0]]], 'b': ['L', [['K', 5], ['K', 6], ['K', 7]]]},
     {'kind': 'clbinop', 'pre': ['sin', 'sin'], 'op': '*', 'a': ['C', [['U', 0, 0], ['U', 1, 0]]], 'b': ['T', [['K', 2], ['K', 3]]]},
     {'kind': 'method', 'pre': ['sin', 'sin'], 'meth': 'lag', 'self': ['C', [['U', 0, 0], ['U', 1, 0]]], 'args': [['L', [['K', 7], ['K', 8], ['K', 9]]]]},
+    # mixed calculation rates inside one list argument: the rate is determined per channel
+    {'kind': 'muladd_new', 'pre': ['sin', 'sink'], 'self': ['L', [['U', 0, 0], ['U', 1, 0]]], 'mul': ['K', 2], 'add': ['K', 5]},
+    {'kind': 'madd', 'pre': ['sin', 'sink', 'ir'], 'self': ['C', [['U', 0, 0], ['U', 1, 0], ['U', 2, 0]]], 'mul': ['K', 2], 'add': ['K', 5]},
+    {'kind': 'method', 'pre': ['sin', 'sink'], 'meth': 'range', 'self': ['C', [['U', 0, 0], ['U', 1, 0]]], 'args': [['K', 2], ['K', 8]]},
+    {'kind': 'clbinop', 'pre': ['sin', 'sink', 'ir'], 'op': '*', 'a': ['C', [['U', 0, 0], ['U', 1, 0], ['U', 2, 0]]], 'b': ['K', 2]},
+    {'kind': 'method', 'pre': ['sin', 'sink', 'ir'], 'meth': 'clip', 'self': ['C', [['U', 0, 0], ['U', 1, 0], ['U', 2, 0]]], 'args': [['K', 2], ['K', 8]]},
+    {'kind': 'poll', 'pre': ['sin', 'sink'], 'self': ['C', [['U', 0, 0], ['U', 1, 0]]], 'trig': ['K', 10], 'label': ['N'], 'tid': ['K', -1]},
     {'kind': 'out_ar', 'pre': ['sin', 'sin'], 'cls': 'Out', 'bus': ['K', 0],
      'output': ['L', [['L', [['U', 0, 0], ['K', 0]]], ['L', [['F', 0], ['U', 1, 0], ['K', 7]]]]]},
 ]
